@@ -84,31 +84,30 @@ Ltac inv_some :=
 Lemma gas_cost_bound cx s i n cost cg w' :
   stack_ok (s_stack s) -> 0 <= s_msize s ->
   gas_cost cx s i n = Some (cost, cg, w') ->
-  0 <= cost /\ 0 <= cg /\ (halting i = false -> 1 <= cost) /\ (forall k, i = I_CALLI k -> 700 <= cost - cg).
+  0 <= cost /\ 0 <= cg /\ (halting i = false -> 1 <= cost) /\
+  (forall k, i = I_CALLI k -> 700 + (if call_value k (s_stack s) =? 0 then 0 else 2300) <= cost - cg).
 Proof.
   intros Hst Hm H.
   assert (Hmg : forall g, mem_gas (s_msize s) n = Some g -> 0 <= g) by (intros; eapply mem_gas_nonneg; eauto).
   pose proof (nthz_ok _ Hst) as Hn.
   assert (H0 : 0 <= nthz (s_stack s) 0) by apply Hn. assert (H1 : 0 <= nthz (s_stack s) 1) by apply Hn.
   assert (H2 : 0 <= nthz (s_stack s) 2) by apply Hn.
-  pose proof (to_words_nonneg _ H2) as Hw2.
+  assert (H3 : 0 <= nthz (s_stack s) 3) by apply Hn.
+  pose proof (to_words_nonneg _ H2) as Hw2. pose proof (to_words_nonneg _ H1) as Hw1. pose proof (to_words_nonneg _ H3) as Hw3.
   destruct i; cbn [gas_cost halting] in H |- *;
     try discriminate;
     repeat match goal with
-    | H : context [match ?x with _ => _ end] |- _ =>
-        match x with
-        | mem_gas _ _ => destruct x eqn:?
-        | oadd _ _ => destruct x eqn:?
-        | _ => destruct x eqn:?
-        end
+    | H : context [match ?x with _ => _ end] |- _ => destruct x eqn:?
     end; inv_some;
     try match goal with Hq : mem_gas _ _ = Some ?g |- _ => pose proof (Hmg _ Hq) end;
     try (specialize (Hmg _ eq_refl));
     try (repeat split; try lia; try (intros; discriminate); try (intros ? ?; discriminate); fail).
-  - (* ALU *) pose proof (alu_gas_pos a (s_stack s)). repeat split; try lia; intros; discriminate.
-  - (* CALL family *)
-    match goal with |- context [call_gas ?a ?b ?c] => pose proof (call_gas_nonneg a b c H0) end.
-    repeat split; try lia.
+  all: try (match goal with |- context [alu_gas ?a ?st] => pose proof (alu_gas_pos a st) end; repeat split; try lia; intros; discriminate).
+  all: match goal with |- context [call_gas ?a ?b ?c] => pose proof (call_gas_nonneg a b c H0) end;
+    repeat split; try lia; intros k0 Hk; inversion Hk; subst;
+    destruct (call_value _ (s_stack s) =? 0) eqn:E;
+    repeat match goal with Hq : context [call_value _ _ =? 0] |- _ => rewrite E in Hq end;
+    cbn [negb andb] in *; try discriminate; lia.
 Qed.
 
 Lemma gas_cost_world cx s i n cost cg w' :
@@ -134,7 +133,8 @@ Qed.
 Lemma pre_ok cx s i s1 cg : inv s -> pre cx s = P_ok i s1 cg ->
   inv s1 /\ s_stack s1 = s_stack s /\
   (exists cost, s_gas s1 = s_gas s - cost /\ 0 <= cost <= s_gas s /\ 0 <= cg /\
-                (halting i = false -> 1 <= cost) /\ (forall k, i = I_CALLI k -> 700 <= cost - cg)).
+                (halting i = false -> 1 <= cost) /\
+                (forall k, i = I_CALLI k -> 700 + (if call_value k (s_stack s) =? 0 then 0 else 2300) <= cost - cg)).
 Proof.
   intros (Hst & Hm & Hg). unfold pre. intros H.
   repeat match goal with
@@ -150,29 +150,34 @@ Proof.
 Qed.
 
 Lemma pre_static cx s i s1 cg : pre cx s = P_ok i s1 cg -> c_static cx = true ->
-  s_world s1 = s_world s /\ writes i = false.
+  s_world s1 = s_world s /\ writes i = false /\ (i = I_CALLI K_CALL -> call_value K_CALL (s_stack s1) = 0).
 Proof.
   unfold pre. intros H Hs. rewrite Hs in H.
   repeat match goal with
   | H : context [match ?x with _ => _ end] |- _ => destruct x eqn:?
   | H : context [let '(_, _) := ?x in _] |- _ => destruct x eqn:?
   end; try discriminate.
-  all: inversion H; subst; clear H; cbn [s_world].
+  all: inversion H; subst; clear H; cbn [s_world s_stack].
   all: match goal with Hw : (true && (writes ?i || _)) = false |- _ =>
-         cbn [andb] in Hw; apply orb_false_elim in Hw; destruct Hw as [Hw _] end.
-  all: split; [eapply gas_cost_world; eauto | assumption].
+         cbn [andb] in Hw; apply orb_false_elim in Hw; destruct Hw as [Hw Hv] end.
+  all: split; [eapply gas_cost_world; eauto | split; [assumption|] ].
+  all: try (intros; discriminate).
+  all: intros _; unfold call_value; apply negb_false_iff in Hv; apply Z.eqb_eq in Hv; exact Hv.
 Qed.
 
 (* ------------------------------------------------------------------ exec_plain *)
 Lemma exec_plain_world E cx i s :
   match exec_plain E cx i s with
-  | S_next s2 => writes i = false -> s_world s2 = s_world s
-  | S_halt r => r_world r = s_world s /\ r_gas r = s_gas s /\ r_out r <> O_fuel
+  | S_next s2 => (writes i = false -> s_world s2 = s_world s) /\ s_cc s2 = s_cc s
+  | S_halt r => (writes i = false -> r_world r = s_world s) /\ r_gas r = s_gas s /\ r_out r <> O_fuel /\ r_cc r = s_cc s
   end.
 Proof.
   destruct i; cbn [exec_plain]; unfold next, next_mem, halt, fail, upd;
-    repeat match goal with |- context [if ?c then _ else _] => destruct c end;
-    cbn; try (repeat split; try reflexivity; discriminate); try (intros; reflexivity); try discriminate.
+    repeat match goal with
+    | |- context [if ?c then _ else _] => destruct c
+    | |- context [match keccak ?e ?d with _ => _ end] => destruct (keccak e d)
+    end;
+    cbn; repeat split; try reflexivity; try discriminate; try (intros; reflexivity); try (intros; discriminate).
 Qed.
 
 Lemma exec_plain_gas E cx i s s2 : stack_ok (s_stack s) -> exec_plain E cx i s = S_next s2 ->
@@ -180,47 +185,74 @@ Lemma exec_plain_gas E cx i s s2 : stack_ok (s_stack s) -> exec_plain E cx i s =
 Proof.
   intros Hst. pose proof (dropz_ok _ Hst) as Hd. pose proof (nthz_ok _ Hst) as Hn.
   destruct i; cbn [exec_plain]; unfold next, next_mem, halt, fail, upd;
-    repeat match goal with |- context [if ?c then _ else _] => destruct c end;
+    repeat match goal with
+    | |- context [if ?c then _ else _] => destruct c
+    | |- context [match keccak ?e ?d with _ => _ end] => destruct (keccak e d)
+    end;
     intros H; inversion H; subst; clear H; cbn [s_gas s_msize s_stack halting];
     repeat split; auto using pushw_ok, swap_ok.
 Qed.
 
-(* ------------------------------------------------------------------ calls *)
-Lemma do_call_world runf E self cs vs static d k to args gas w :
+(* ------------------------------------------------------------------ calls and creations *)
+Lemma transfer_zero w a b : transfer w a b 0 = w.
+Proof. reflexivity. Qed.
+
+Lemma do_call_world runf E self cs vs static d k to v args gas w cc :
   (forall cx' s', c_static cx' = true -> r_world (runf cx' s') = s_world s') ->
-  static = true \/ k = K_STATIC ->
-  r_world (do_call runf E self cs vs static d k to args gas w) = w.
+  static = true \/ k = K_STATIC -> (k = K_CALL -> v = 0) ->
+  r_world (do_call runf E self cs vs static d k to v args gas w cc) = w.
 Proof.
-  intros Hrun Hs. unfold do_call.
-  destruct (1024 <? d); [reflexivity|]. destruct (precompile to); [reflexivity|].
-  destruct (code_of E to) eqn:Hc; [reflexivity|].
+  intros Hrun Hs Hv. unfold do_call.
+  destruct (1024 <? d); [reflexivity|]. destruct (_ && (balance w self <? v)); [reflexivity|].
+  destruct (precompile to); [reflexivity|].
+  destruct (_ && negb (exists_acct w to) && (v =? 0)); [reflexivity|].
+  assert (Hw1 : (match k with K_CALL => transfer w self to v | _ => w end) = w).
+  { destruct k; try reflexivity. rewrite (Hv eq_refl). reflexivity. }
+  rewrite Hw1.
+  destruct (code_of w to) eqn:Hc; [reflexivity|].
   match goal with |- context [runf ?c ?st] => set (cx' := c); set (s' := st) end.
   assert (Hst : c_static cx' = true). { unfold cx'. destruct Hs as [->| ->]; try destruct k; reflexivity. }
   pose proof (Hrun cx' s' Hst) as Hw. destruct (r_out (runf cx' s')); try reflexivity. exact Hw.
 Qed.
 
-Lemma do_call_failed runf E self cs vs static d k to args gas w :
-  let r := do_call runf E self cs vs static d k to args gas w in
+Lemma do_call_failed runf E self cs vs static d k to v args gas w cc :
+  let r := do_call runf E self cs vs static d k to v args gas w cc in
   r_out r <> O_ok -> r_world r = w.
 Proof.
   unfold do_call.
-  destruct (1024 <? d); [reflexivity|]. destruct (precompile to); [reflexivity|].
-  destruct (code_of E to); [reflexivity|].
+  destruct (1024 <? d); [reflexivity|]. destruct (_ && (balance w self <? v)); [reflexivity|].
+  destruct (precompile to); [reflexivity|].
+  destruct (_ && negb (exists_acct w to) && (v =? 0)); [reflexivity|].
+  destruct (code_of _ to); [cbn; congruence|].
   match goal with |- context [runf ?c ?st] => set (r := runf c st) end.
   destruct (r_out r) eqn:Ho; cbn; try reflexivity. rewrite Ho. congruence.
 Qed.
 
-Lemma do_call_gas runf E self cs vs static d k to args gas w (F : Z) :
+Lemma do_create_failed runf E self static d addr init v gas w cc :
+  let r := do_create runf E self static d addr init v gas w cc in
+  r_out r <> O_ok -> r_world r = w.
+Proof.
+  unfold do_create.
+  destruct (1024 <? d); [reflexivity|]. destruct (balance w self <? v); [reflexivity|].
+  destruct (negb (is_nil (code_of w addr))); [reflexivity|].
+  match goal with |- context [match r_out ?x with _ => _ end] => set (r := x) end.
+  destruct (r_out r) eqn:Ho; cbn [r_world r_out]; try reflexivity.
+  repeat match goal with |- context [if ?c then _ else _] => destruct c end; cbn [r_world r_out]; try reflexivity; congruence.
+Qed.
+
+Lemma do_call_gas runf E self cs vs static d k to v args gas w cc (F : Z) :
   (forall cx' s', inv s' -> s_gas s' < F ->
      r_out (runf cx' s') <> O_fuel /\ 0 <= r_gas (runf cx' s') <= s_gas s') ->
   0 <= gas < F ->
-  let r := do_call runf E self cs vs static d k to args gas w in
+  let r := do_call runf E self cs vs static d k to v args gas w cc in
   r_out r <> O_fuel /\ 0 <= r_gas r <= gas.
 Proof.
   intros Hrun Hg. unfold do_call.
   destruct (1024 <? d). { cbn. split; [discriminate|lia]. }
+  destruct (_ && (balance w self <? v)). { cbn. split; [discriminate|lia]. }
   destruct (precompile to). { cbn. split; [discriminate|lia]. }
-  destruct (code_of E to). { cbn. split; [discriminate|lia]. }
+  destruct (_ && negb (exists_acct w to) && (v =? 0)). { cbn. split; [discriminate|lia]. }
+  destruct (code_of _ to). { cbn. split; [discriminate|lia]. }
   match goal with |- context [runf ?c ?st] => set (cx' := c); set (s' := st) end.
   assert (Hi : inv s'). { unfold inv, s'; cbn. repeat split; try lia. constructor. }
   destruct (Hrun cx' s' Hi) as (H1 & H2). { unfold s'; cbn; lia. }
@@ -230,17 +262,48 @@ Proof.
   - congruence.
 Qed.
 
-Definition is_call (i : instr) : option call_kind := match i with I_CALLI k => Some k | _ => None end.
-Lemma step_plain runf E cx s i s1 cg : pre cx s = P_ok i s1 cg -> is_call i = None ->
+Lemma zlen_nonneg {A} (l : list A) : 0 <= zlen l.
+Proof. induction l; cbn [zlen]; lia. Qed.
+
+Lemma do_create_gas runf E self static d addr init v gas w cc (F : Z) :
+  (forall cx' s', inv s' -> s_gas s' < F ->
+     r_out (runf cx' s') <> O_fuel /\ 0 <= r_gas (runf cx' s') <= s_gas s') ->
+  0 <= gas < F ->
+  let r := do_create runf E self static d addr init v gas w cc in
+  r_out r <> O_fuel /\ 0 <= r_gas r <= gas.
+Proof.
+  intros Hrun Hg. unfold do_create.
+  destruct (1024 <? d). { cbn. split; [discriminate|lia]. }
+  destruct (balance w self <? v). { cbn. split; [discriminate|lia]. }
+  destruct (negb (is_nil (code_of w addr))). { cbn. split; [discriminate|lia]. }
+  match goal with |- context [match r_out ?x with _ => _ end] => set (r := x) end.
+  assert (Hr : r_out r <> O_fuel /\ 0 <= r_gas r <= gas).
+  { unfold r. destruct init as [|b0 init']. { cbn. split; [discriminate|lia]. }
+    match goal with |- context [runf ?c ?st] => set (cx' := c); set (s' := st) end.
+    assert (Hi : inv s'). { unfold inv, s'; cbn. repeat split; try lia. constructor. }
+    destruct (Hrun cx' s' Hi) as (H1 & H2). { unfold s'; cbn; lia. }
+    unfold s' in H2; cbn [s_gas] in H2. split; [exact H1|exact H2]. }
+  destruct Hr as (Hr1 & Hr2). pose proof (zlen_nonneg (r_data r)) as Hz.
+  destruct (r_out r) eqn:Ho; cbn [r_out r_gas]; try (split; [discriminate|lia]); try congruence.
+  repeat match goal with |- context [if ?c then _ else _] => destruct c eqn:? end; cbn [r_out r_gas]; split; try discriminate; try lia.
+Qed.
+
+Inductive step_kind := SK_call (k : call_kind) | SK_create (two : bool) | SK_plain.
+Definition kind_of (i : instr) : step_kind :=
+  match i with I_CALLI k => SK_call k | I_CREATE => SK_create false | I_CREATE2 => SK_create true | _ => SK_plain end.
+Lemma step_plain runf E cx s i s1 cg : pre cx s = P_ok i s1 cg -> kind_of i = SK_plain ->
   step runf E cx s = exec_plain E cx i s1.
-Proof. intros H Hn. unfold step. rewrite H. destruct i; try reflexivity. discriminate. Qed.
+Proof. intros H Hn. unfold step. rewrite H. destruct i; try reflexivity; discriminate. Qed.
 Lemma step_call runf E cx s k s1 cg : pre cx s = P_ok (I_CALLI k) s1 cg ->
   step runf E cx s = exec_call runf E cx k s1 cg.
 Proof. intros H. unfold step. rewrite H. reflexivity. Qed.
-Lemma is_call_some i k : is_call i = Some k -> i = I_CALLI k.
+Lemma step_create runf E cx s i two s1 cg : pre cx s = P_ok i s1 cg -> kind_of i = SK_create two ->
+  step runf E cx s = exec_create runf E cx two s1.
+Proof. intros H Hk. unfold step. rewrite H. destruct i; try discriminate; inversion Hk; reflexivity. Qed.
+Lemma kind_call i k : kind_of i = SK_call k -> i = I_CALLI k.
 Proof. destruct i; cbn; try discriminate. inversion 1; reflexivity. Qed.
-Lemma is_call_writes i k : is_call i = Some k -> writes i = false /\ halting i = false.
-Proof. destruct i; cbn; try discriminate. auto. Qed.
+Lemma kind_create_writes i two : kind_of i = SK_create two -> writes i = true /\ halting i = false.
+Proof. destruct i; cbn; try discriminate; auto. Qed.
 
 (* ------------------------------------------------------------------ termination and gas *)
 Lemma run_gas fuel : forall E cx s, inv s -> s_gas s < Z.of_nat fuel ->
@@ -248,39 +311,67 @@ Lemma run_gas fuel : forall E cx s, inv s -> s_gas s < Z.of_nat fuel ->
 Proof.
   induction fuel as [|f IH]; intros E cx s Hinv Hlt.
   { destruct Hinv as (_ & _ & Hg). lia. }
-  cbn [run]. destruct (pre cx s) eqn:Hpre.
+  cbn [run]. destruct (pre cx s) as [r0|i s1 cg] eqn:Hpre.
   - (* halted before execution *)
     destruct (pre_halt _ _ _ Hpre) as (res & -> & _ & Hgas & Hout).
     unfold step. rewrite Hpre. rewrite Hgas. destruct Hinv as (_ & _ & Hg). split; [assumption|lia].
   - destruct (pre_ok _ _ _ _ _ Hinv Hpre) as (Hinv1 & Hstk & cost & Hg1 & Hc & Hcg & Hnh & Hcall).
     destruct Hinv1 as (Hst1 & Hm1 & Hgas1).
-    destruct (is_call i) as [k|] eqn:Hic.
+    destruct (kind_of i) as [k|two|] eqn:Hic.
     + (* call family *)
-      apply is_call_some in Hic. subst i. rewrite (step_call _ _ _ _ _ _ _ Hpre).
-      specialize (Hcall k eq_refl).
+      apply kind_call in Hic. subst i. rewrite (step_call _ _ _ _ _ _ _ Hpre).
+      specialize (Hcall k eq_refl). rewrite <- Hstk in Hcall.
       unfold exec_call.
-      match goal with |- context [do_call ?rf ?e ?a ?b ?c ?d ?dd ?kk ?t ?ar ?g ?w] =>
-        pose proof (do_call_gas rf e a b c d dd kk t ar g w (Z.of_nat f)) as Hd; set (r := do_call rf e a b c d dd kk t ar g w) in * end.
+      set (v := call_value k (s_stack s1)) in *.
+      set (gas' := if v =? 0 then cg else cg + 2300).
+      assert (Hgas' : 0 <= gas' /\ gas' <= cg + (if v =? 0 then 0 else 2300) /\ gas' < Z.of_nat f).
+      { unfold gas'. destruct (v =? 0); lia. }
+      match goal with |- context [do_call ?rf ?e ?a ?b ?c ?d ?dd ?kk ?t ?vv ?ar ?g ?w ?ccc] =>
+        pose proof (do_call_gas rf e a b c d dd kk t vv ar g w ccc (Z.of_nat f)) as Hd;
+        set (r := do_call rf e a b c d dd kk t vv ar g w ccc) in * end.
       destruct Hd as (Ho & Hrg).
       { intros cx' s' Hi' Hl'. apply IH; assumption. }
       { lia. }
       destruct (r_out r) eqn:Hor; try congruence.
-      * (* ok *)
-        match goal with |- context [run f E cx ?st2] => set (s2 := st2) end.
+      * match goal with |- context [run f E cx ?st2] => set (s2 := st2) end.
         assert (Hi2 : inv s2). { unfold inv, s2; cbn. repeat split; try lia. constructor. apply in_word_1. apply dropz_ok; assumption. }
         destruct (IH E cx s2 Hi2) as (A & B). { unfold s2; cbn. lia. }
         unfold s2 in B; cbn [s_gas] in B. fold s2 in B. split; [exact A|lia].
-      * (* revert *)
-        match goal with |- context [run f E cx ?st2] => set (s2 := st2) end.
+      * match goal with |- context [run f E cx ?st2] => set (s2 := st2) end.
         assert (Hi2 : inv s2). { unfold inv, s2; cbn. repeat split; try lia. constructor. apply in_word_0. apply dropz_ok; assumption. }
         destruct (IH E cx s2 Hi2) as (A & B). { unfold s2; cbn. lia. }
         unfold s2 in B; cbn [s_gas] in B. fold s2 in B. split; [exact A|lia].
-      * (* error in callee *)
-        match goal with |- context [run f E cx ?st2] => set (s2 := st2) end.
+      * match goal with |- context [run f E cx ?st2] => set (s2 := st2) end.
         assert (Hi2 : inv s2). { unfold inv, s2; cbn. repeat split; try lia. constructor. apply in_word_0. apply dropz_ok; assumption. }
         destruct (IH E cx s2 Hi2) as (A & B). { unfold s2; cbn. lia. }
         unfold s2 in B; cbn [s_gas] in B. fold s2 in B. split; [exact A|lia].
-      * (* unsupported *) cbn. split; [discriminate|lia].
+      * cbn. split; [discriminate|lia].
+    + (* CREATE / CREATE2 *)
+      destruct (kind_create_writes _ _ Hic) as (_ & Hh). specialize (Hnh Hh).
+      rewrite (step_create _ _ _ _ _ _ _ _ Hpre Hic). unfold exec_create.
+      match goal with |- context [match ?o with Some _ => _ | None => _ end] => destruct o as [addr|] end.
+      2:{ cbn. split; [discriminate|lia]. }
+      assert (Hq : 0 <= s_gas s1 / 64 <= s_gas s1). { split. apply Z.div_pos; lia. apply Z.div_le_upper_bound; lia. }
+      match goal with |- context [do_create ?rf ?e ?a ?b ?c ?ad ?ini ?vv ?g ?w ?ccc] =>
+        pose proof (do_create_gas rf e a b c ad ini vv g w ccc (Z.of_nat f)) as Hd;
+        set (r := do_create rf e a b c ad ini vv g w ccc) in * end.
+      destruct Hd as (Ho & Hrg).
+      { intros cx' s' Hi' Hl'. apply IH; assumption. }
+      { lia. }
+      destruct (r_out r) eqn:Hor; try congruence.
+      * match goal with |- context [run f E cx ?st2] => set (s2 := st2) end.
+        assert (Hi2 : inv s2) by (unfold inv, s2; cbn; repeat split; try lia; apply pushw_ok, dropz_ok; assumption).
+        destruct (IH E cx s2 Hi2) as (A & B). { unfold s2; cbn; lia. }
+        unfold s2 in B; cbn [s_gas] in B; fold s2 in B. split; [exact A|lia].
+      * match goal with |- context [run f E cx ?st2] => set (s2 := st2) end.
+        assert (Hi2 : inv s2) by (unfold inv, s2; cbn; repeat split; try lia; apply pushw_ok, dropz_ok; assumption).
+        destruct (IH E cx s2 Hi2) as (A & B). { unfold s2; cbn; lia. }
+        unfold s2 in B; cbn [s_gas] in B; fold s2 in B. split; [exact A|lia].
+      * match goal with |- context [run f E cx ?st2] => set (s2 := st2) end.
+        assert (Hi2 : inv s2) by (unfold inv, s2; cbn; repeat split; try lia; apply pushw_ok, dropz_ok; assumption).
+        destruct (IH E cx s2 Hi2) as (A & B). { unfold s2; cbn; lia. }
+        unfold s2 in B; cbn [s_gas] in B; fold s2 in B. split; [exact A|lia].
+      * cbn. split; [discriminate|lia].
     + (* every other instruction *)
       rewrite (step_plain _ _ _ _ _ _ _ Hpre Hic).
       pose proof (exec_plain_world E cx i s1) as Hw.
@@ -290,7 +381,7 @@ Proof.
         assert (Hi2 : inv s2) by (unfold inv; repeat split; try assumption; lia).
         destruct (IH E cx s2 Hi2) as (A & B). { lia. }
         split; [exact A|lia].
-      * destruct Hw as (_ & Hg2 & Ho). rewrite Hg2. split; [exact Ho|lia].
+      * destruct Hw as (_ & Hg2 & Ho & _). rewrite Hg2. split; [exact Ho|lia].
 Qed.
 
 (* ------------------------------------------------------------------ static frames write nothing *)
@@ -299,53 +390,59 @@ Proof.
   induction fuel as [|f IH]; intros E cx s Hs. { reflexivity. }
   cbn [run]. destruct (pre cx s) eqn:Hpre.
   - destruct (pre_halt _ _ _ Hpre) as (res & -> & Hw & _ & _). unfold step. rewrite Hpre. exact Hw.
-  - destruct (pre_static _ _ _ _ _ Hpre Hs) as (Hw1 & Hwr).
-    destruct (is_call i) as [k|] eqn:Hic.
-    + apply is_call_some in Hic. subst i. rewrite (step_call _ _ _ _ _ _ _ Hpre).
+  - destruct (pre_static _ _ _ _ _ Hpre Hs) as (Hw1 & Hwr & Hval).
+    destruct (kind_of i) as [k|two|] eqn:Hic.
+    + apply kind_call in Hic. subst i. rewrite (step_call _ _ _ _ _ _ _ Hpre).
       unfold exec_call.
-      match goal with |- context [do_call ?rf ?e ?a ?b ?c ?d ?dd ?kk ?t ?ar ?g ?w] =>
-        pose proof (do_call_world rf e a b c d dd kk t ar g w) as Hd; set (r := do_call rf e a b c d dd kk t ar g w) in * end.
-      assert (Hrw : r_world r = s_world s1). { apply Hd. intros; apply IH; assumption. left; exact Hs. }
+      match goal with |- context [do_call ?rf ?e ?a ?b ?c ?d ?dd ?kk ?t ?vv ?ar ?g ?w ?ccc] =>
+        pose proof (do_call_world rf e a b c d dd kk t vv ar g w ccc) as Hd;
+        set (r := do_call rf e a b c d dd kk t vv ar g w ccc) in * end.
+      assert (Hrw : r_world r = s_world s1).
+      { apply Hd. intros; apply IH; assumption. left; exact Hs. intros ->. apply Hval. reflexivity. }
       destruct (r_out r); try (cbn; congruence);
         (rewrite IH by exact Hs; cbn [s_world]; congruence).
+    + destruct (kind_create_writes _ _ Hic) as (Hx & _). congruence.
     + rewrite (step_plain _ _ _ _ _ _ _ Hpre Hic).
       pose proof (exec_plain_world E cx i s1) as Hw.
       destruct (exec_plain E cx i s1) as [s2|res].
-      * rewrite IH by exact Hs. rewrite (Hw Hwr). exact Hw1.
-      * destruct Hw as (Hw & _). congruence.
+      * rewrite IH by exact Hs. destruct Hw as (Hw & _). rewrite (Hw Hwr). exact Hw1.
+      * destruct Hw as (Hw & _). rewrite (Hw Hwr). exact Hw1.
 Qed.
 
 (* ------------------------------------------------------------------ the entry point *)
-Theorem call_top_terminates fuel E static to input gas w :
+Theorem call_top_terminates fuel E static to v input gas w :
   0 <= gas < Z.of_nat fuel ->
-  let r := call_top fuel E static to input gas w in
+  let r := call_top fuel E static to v input gas w in
   r_out r <> O_fuel /\ 0 <= r_gas r <= gas.
 Proof.
   intros Hg. unfold call_top. apply do_call_gas with (F := Z.of_nat fuel); [|exact Hg].
   intros cx' s' Hi Hl. apply run_gas; assumption.
 Qed.
 
-Theorem call_top_failed fuel E static to input gas w :
-  let r := call_top fuel E static to input gas w in
+Theorem call_top_failed fuel E static to v input gas w :
+  let r := call_top fuel E static to v input gas w in
   r_out r <> O_ok -> r_world r = w.
 Proof. unfold call_top. apply do_call_failed. Qed.
 
 Theorem call_top_static fuel E to input gas w :
-  r_world (call_top fuel E true to input gas w) = w.
+  r_world (call_top fuel E true to 0 input gas w) = w.
 Proof.
-  unfold call_top. apply do_call_world; [|left; reflexivity].
+  unfold call_top. apply do_call_world; [|left; reflexivity|reflexivity].
   intros cx' s' Hs. apply run_static. exact Hs.
 Qed.
 
-(* a STATICCALL / any call made from a frame, at any depth, with any callee: same two facts for the frame-level wrapper *)
-Theorem frame_failed fuel E self cs vs static d k to args gas w :
-  let r := do_call (run fuel E) E self cs vs static d k to args gas w in
+Theorem frame_failed fuel E self cs vs static d k to v args gas w cc :
+  let r := do_call (run fuel E) E self cs vs static d k to v args gas w cc in
   r_out r <> O_ok -> r_world r = w.
 Proof. apply do_call_failed. Qed.
-Theorem frame_static fuel E self cs vs static d k to args gas w :
-  static = true \/ k = K_STATIC ->
-  r_world (do_call (run fuel E) E self cs vs static d k to args gas w) = w.
-Proof. intros H. apply do_call_world; [|exact H]. intros; apply run_static; assumption. Qed.
+Theorem create_failed fuel E self static d addr init v gas w cc :
+  let r := do_create (run fuel E) E self static d addr init v gas w cc in
+  r_out r <> O_ok -> r_world r = w.
+Proof. apply do_create_failed. Qed.
+Theorem frame_static fuel E self cs vs static d k to v args gas w cc :
+  static = true \/ k = K_STATIC -> (k = K_CALL -> v = 0) ->
+  r_world (do_call (run fuel E) E self cs vs static d k to v args gas w cc) = w.
+Proof. intros H Hv. apply do_call_world; [|exact H|exact Hv]. intros; apply run_static; assumption. Qed.
 
 (* the ALU instructions of a running frame push the mathematical result *)
 Theorem alu_step_math E cx op s : stack_ok (s_stack s) ->
@@ -362,16 +459,39 @@ Lemma step_mono runf rung E cx s :
   step rung E cx s = step runf E cx s.
 Proof.
   intros Hsame Hnf. unfold step in *. destruct (pre cx s) as [r|i s1 cg]; [reflexivity|].
+  assert (D : forall x, r_out x = O_fuel \/ r_out x <> O_fuel).
+  { intros x. destruct (r_out x); (left; reflexivity) || (right; discriminate). }
   destruct i; try reflexivity.
-  unfold exec_call, do_call in *.
-  destruct (1024 <? c_depth cx); [reflexivity|]. destruct (precompile _); [reflexivity|].
-  destruct (code_of E _); [reflexivity|].
-  match goal with |- context [rung ?c ?st] => set (cx' := c) in *; set (s' := st) in * end.
-  assert (D : r_out (runf cx' s') = O_fuel \/ r_out (runf cx' s') <> O_fuel).
-  { destruct (r_out (runf cx' s')); (left; reflexivity) || (right; discriminate). }
-  destruct D as [Hf|Hn].
-  - exfalso. rewrite Hf in Hnf. cbn in Hnf. eapply Hnf; reflexivity.
-  - rewrite (Hsame _ _ Hn). reflexivity.
+  - (* CREATE *)
+    unfold exec_create, do_create in *.
+    match goal with |- context [match ?o with Some _ => _ | None => _ end] => destruct o as [addr|]; [|reflexivity] end.
+    destruct (1024 <? c_depth cx); [reflexivity|]. destruct (balance _ _ <? _); [reflexivity|].
+    destruct (negb (is_nil _)); [reflexivity|].
+    destruct (mslice _ _ _) eqn:Hinit; [reflexivity|].
+    match goal with |- context [rung ?c ?st] => set (cx' := c) in *; set (s' := st) in * end.
+    destruct (D (runf cx' s')) as [Hf|Hn].
+    + exfalso. rewrite Hf in Hnf. cbn in Hnf. eapply Hnf; reflexivity.
+    + rewrite (Hsame _ _ Hn). reflexivity.
+  - (* CALL family *)
+    unfold exec_call, do_call in *.
+    destruct (1024 <? c_depth cx); [reflexivity|]. destruct (_ && (balance _ _ <? _)); [reflexivity|].
+    destruct (precompile _); [reflexivity|].
+    destruct (_ && negb (exists_acct _ _) && (_ =? 0)); [reflexivity|].
+    destruct (code_of _ _); [reflexivity|].
+    match goal with |- context [rung ?c ?st] => set (cx' := c) in *; set (s' := st) in * end.
+    destruct (D (runf cx' s')) as [Hf|Hn].
+    + exfalso. rewrite Hf in Hnf. cbn in Hnf. eapply Hnf; reflexivity.
+    + rewrite (Hsame _ _ Hn). reflexivity.
+  - (* CREATE2 *)
+    unfold exec_create, do_create in *.
+    match goal with |- context [match ?o with Some _ => _ | None => _ end] => destruct o as [addr|]; [|reflexivity] end.
+    destruct (1024 <? c_depth cx); [reflexivity|]. destruct (balance _ _ <? _); [reflexivity|].
+    destruct (negb (is_nil _)); [reflexivity|].
+    destruct (mslice _ _ _) eqn:Hinit; [reflexivity|].
+    match goal with |- context [rung ?c ?st] => set (cx' := c) in *; set (s' := st) in * end.
+    destruct (D (runf cx' s')) as [Hf|Hn].
+    + exfalso. rewrite Hf in Hnf. cbn in Hnf. eapply Hnf; reflexivity.
+    + rewrite (Hsame _ _ Hn). reflexivity.
 Qed.
 
 Lemma run_mono f : forall E cx s, r_out (run f E cx s) <> O_fuel ->
@@ -388,13 +508,15 @@ Proof.
   apply IH; assumption.
 Qed.
 
-Theorem call_top_fuel_irrelevant f f' E static to input gas w :
-  r_out (call_top f E static to input gas w) <> O_fuel -> (f <= f')%nat ->
-  call_top f' E static to input gas w = call_top f E static to input gas w.
+Theorem call_top_fuel_irrelevant f f' E static to v input gas w :
+  r_out (call_top f E static to v input gas w) <> O_fuel -> (f <= f')%nat ->
+  call_top f' E static to v input gas w = call_top f E static to v input gas w.
 Proof.
   intros Hnf Hle. unfold call_top, do_call in *.
-  destruct (1024 <? 0); [reflexivity|]. destruct (precompile to); [reflexivity|].
-  destruct (code_of E to); [reflexivity|].
+  destruct (1024 <? 0); [reflexivity|]. destruct (_ && (balance _ _ <? _)); [reflexivity|].
+  destruct (precompile to); [reflexivity|].
+  destruct (_ && negb (exists_acct _ _) && (_ =? 0)); [reflexivity|].
+  destruct (code_of _ to); [reflexivity|].
   match goal with |- context [run f' E ?c ?st] => set (cx' := c) in *; set (s' := st) in * end.
   assert (D : r_out (run f E cx' s') = O_fuel \/ r_out (run f E cx' s') <> O_fuel).
   { destruct (r_out (run f E cx' s')); (left; reflexivity) || (right; discriminate). }
